@@ -4,13 +4,28 @@ from cohdl._compiler.frontend import generate_internal_representation
 from cohdl._compiler.backend import generate_vhdl
 
 
+def _reset_std_state():
+    # state of the std library that is only valid during one compilation;
+    # a previous rejected compilation might not have cleaned it up
+    from . import _context
+    from ._prefix import _Prefix
+
+    _context._current_context = None
+    _context._current_context_data = None
+    _Prefix._prefix_scope = []
+    _Prefix._existing_prefix = {}
+    _Prefix._current_entity = None
+
+
 class VhdlCompiler:
     @classmethod
     def to_ir(cls, entity):
+        _reset_std_state()
         return generate_internal_representation(entity)
 
     @classmethod
     def to_vhdl_library(cls, top_entity, *, additional_reserved_names: set[str] = None):
+        _reset_std_state()
         ir = generate_internal_representation(top_entity)
         return generate_vhdl(ir, additional_reserved_names=additional_reserved_names)
 
